@@ -431,6 +431,40 @@ Example c16_demo_bulk :
    snd (set_children c16_demo 4 [Some 3; Some 2]) = OK).
 Proof. vm_compute. repeat split; reflexivity. Qed.
 
+(* ---- the tie to the source text: an accepted `task.parent = p` of the code as written (gen/SrcGraph.v, translated on
+   every run) has exactly the effect of the model's write - and the model's write is what the theorems above describe *)
+From PJ Require Import gen.SrcGraph Graph.SrcGraphEquiv2 Graph.SrcGraphEquiv3.
+
+Theorem C16_src_set_parent : forall s (t : obj) (p : option obj), WF s -> hid_tid (hp s) -> t < length (hp s) ->
+  (forall p', p = Some p' -> p' < length (hp s)) ->
+  src_set_parent (S (S (length (hp s)))) (wroots s) (hp s) t p = lift_set s (set_parent s t p).
+Proof. exact src_set_parent_eq. Qed.
+
+Theorem C16_src_set_parent_rejects_like_the_model : forall s (t : obj) (p : option obj), WF s -> hid_tid (hp s) ->
+  t < length (hp s) -> (forall p', p = Some p' -> p' < length (hp s)) ->
+  (src_set_parent (S (S (length (hp s)))) (wroots s) (hp s) t p = Err <-> set_parent_guard s t p = Err).
+Proof. exact src_set_parent_Err_iff. Qed.
+
+(* the other three setters, translated from their current source text: an accepted assignment writes exactly what the
+   model's write function writes (the released children, the adopted ones with their subtrees and owners, the mirror side
+   of every edited dependency) *)
+From PJ Require Import Graph.SrcGraphEquiv4 Graph.SrcGraphEquiv5.
+
+Theorem C16_src_set_predecessors : forall s (t : obj) (vs : list (option obj)), WF s -> hid_tid (hp s) ->
+  (forall v, In (Some v) vs -> hidden (get (hp s) v) = false) ->
+  src_set_predecessors (S (S (length (hp s)))) (hp s) t vs = lift_set s (set_links true s t vs).
+Proof. exact src_set_predecessors_eq. Qed.
+
+Theorem C16_src_set_successors : forall s (t : obj) (vs : list (option obj)), WF s -> hid_tid (hp s) ->
+  (forall v, In (Some v) vs -> hidden (get (hp s) v) = false) ->
+  src_set_successors (S (S (length (hp s)))) (hp s) t vs = lift_set s (set_links false s t vs).
+Proof. exact src_set_successors_eq. Qed.
+
+Theorem C16_src_set_children : forall s (t : obj) (vs : list (option obj)), WF s -> hid_tid (hp s) ->
+  t < length (hp s) -> (forall v, In (Some v) vs -> v < length (hp s)) ->
+  src_set_children (S (S (length (hp s)))) (hp s) t vs = lift_set s (set_children s t vs).
+Proof. exact src_set_children_eq. Qed.
+
 Print Assumptions C16_move.
 Print Assumptions C16_move_one.
 Print Assumptions C16_insert.
@@ -476,3 +510,8 @@ Print Assumptions c16_demo_bulk.
 Print Assumptions c16_demo_WF.
 Print Assumptions c16_demo_accepted.
 Print Assumptions c16_demo_setters.
+Print Assumptions C16_src_set_parent.
+Print Assumptions C16_src_set_parent_rejects_like_the_model.
+Print Assumptions C16_src_set_predecessors.
+Print Assumptions C16_src_set_successors.
+Print Assumptions C16_src_set_children.
